@@ -375,6 +375,14 @@ impl Ctx {
             match s {
                 syn::Stmt::Expr(e, _) => out.push(self.expr(e)),
                 syn::Stmt::Local(l) => {
+                    // let mut it = SRC; while let Some(p) = it.next() { body }   ==  for p in SRC { body }
+                    // (only when `it` is used nowhere else: the `while` must be the very next statement and
+                    //  its body must not mention `it`)
+                    if let Some(fe) = self.while_next(l, ss.get(k + 1)) {
+                        out.push(fe);
+                        out.push(self.stmts(&ss[k + 2..]));
+                        return Ctx::seq(out);
+                    }
                     // let (A, B, ..) = self; <rest>
                     let ok = l.attrs.is_empty()
                         && l.init.as_ref().map(|i| i.diverge.is_none() && is_self_like(&i.expr)).unwrap_or(false)
@@ -395,6 +403,57 @@ impl Ctx {
             }
         }
         Ctx::seq(out)
+    }
+
+    fn while_next(&self, l: &syn::Local, next: Option<&syn::Stmt>) -> Option<Stmt> {
+        if !l.attrs.is_empty() {
+            return None;
+        }
+        let it = match &l.pat {
+            Pat::Ident(pi) if pi.by_ref.is_none() && pi.subpat.is_none() => pi.ident.to_string(),
+            _ => return None,
+        };
+        let init = l.init.as_ref()?;
+        if init.diverge.is_some() {
+            return None;
+        }
+        let w = match next? {
+            syn::Stmt::Expr(Expr::While(w), _) if w.attrs.is_empty() && w.label.is_none() => w,
+            _ => return None,
+        };
+        let lt = match strip(&w.cond) {
+            Expr::Let(lt) => lt,
+            _ => return None,
+        };
+        // pattern `Some(p)`
+        let inner = match &*lt.pat {
+            Pat::TupleStruct(ts) if ts.path.is_ident("Some") && ts.elems.len() == 1 => &ts.elems[0],
+            _ => return None,
+        };
+        // scrutinee `it.next()`
+        match strip(&lt.expr) {
+            Expr::MethodCall(mc) if mc.method == "next" && mc.args.is_empty() && mc.turbofish.is_none() => match strip(&mc.receiver) {
+                Expr::Path(p) if p.path.is_ident(&it) => {}
+                _ => return None,
+            },
+            _ => return None,
+        }
+        // the iterator variable must not be touched by the body
+        let body_txt = compact(&w.body);
+        let isw = |c: char| c.is_alphanumeric() || c == '_';
+        let mut from = 0;
+        while let Some(pos) = body_txt[from..].find(&it) {
+            let a = from + pos;
+            let b = a + it.len();
+            let before = body_txt[..a].chars().last().map(isw).unwrap_or(false);
+            let after = body_txt[b..].chars().next().map(isw).unwrap_or(false);
+            if !before && !after {
+                return None;
+            }
+            from = b;
+        }
+        let pats = self.binders(inner)?;
+        Some(Stmt::ForEach(self.iter_src(&init.expr), pats, Box::new(self.block(&w.body))))
     }
 
     fn is_trait_fn(func: &Expr, tr: &str, f: &str) -> bool {
